@@ -23,6 +23,9 @@ RULE = (
     'every stripe boundary (shared transverse cell) plus random ones. non-trivial = distinct accepted configurations with >=2 concurrent stripes in a region '
     '(npartition>=4, nthread>1). Stress: compiled multi-thread vs single-thread, exact arithmetic, bitwise.'
 )
+RULE += (
+    ' Added after seeded round 9: wrap=True with out-of-box particles in column-major and strided position arrays.'
+)
 ASSUMPTIONS = [
     'iterations of one numba prange region may run concurrently in any interleaving when nthread>1; regions are separated by a barrier; with nthread==1 nothing is concurrent',
     'the interpreted bodies are the same code objects as the compiled kernels (re-bound globals only)',
